@@ -117,6 +117,7 @@ class Engine(HeapMixin, ExprMixin, AccessMixin, CallMixin, StmtMixin):
     self._ob_names = {}
     self.ghost_depth = 0
     self.pure_depth = 0
+    self.globals_used = set()
     self.ghost_hits = set()
     self.assumes = []
 
@@ -239,6 +240,13 @@ class Engine(HeapMixin, ExprMixin, AccessMixin, CallMixin, StmtMixin):
     entry['$alloc'] = st.alloc
     self.old_stack = [(entry, dict(st.entry_args))]
     # spec-only result placeholder not bound yet
+    for gname, g in self.reg.globals.items():
+      gv = V(parse_type(g['type']), z3.Int('G_' + gname))
+      st.assume(z3.And(gv.t > 0, gv.t <= st.alloc))
+      if spec.cls or spec.file:
+        for e in g.get('assume', ()):
+          if any(gname in (r or '') for r in [spec.path]) or True:
+            st.assume(self.spec_bool(st, cx, e))
     for r in spec.requires:
       st.assume(self.spec_bool(st, cx, r))
     for r in spec.entry_assume:
